@@ -31,7 +31,7 @@ META = dict(
 import ast, os, itertools
 import numpy as np
 from .lib import CoqFailure, coq_Z, coq_list, coq_bool, coq_nat
-from .pscommon import Once, run_nat_cases, random_thermo
+from .pscommon import Once, run_nat_cases, random_thermo, encode
 from . import gen
 
 IMPORTS = """From Coq Require Import List ZArith Arith Bool.
@@ -70,6 +70,13 @@ Definition run_ps (c : list (psrow zz (list Z) (list Z)) * option (list zz * lis
     else if negb (leqb roweqb (arrays2ps (a', b', x')) back) then 2 else if negb (leqb roweqb back l) then 3 else 0
   | _, _ => 4
   end.
+(* Cluster._asdict keys (0 clustersitelist, 1 transition, 2 vacancy; 9 = anything else) for given constructor flags, and the
+   flags of the reloaded cluster *)
+Definition run_clflags (c : bool * bool * list nat * bool * bool) : nat :=
+  let '(t, v, ks, t', v') := c in
+  if negb (leqb Nat.eqb (cluster_asdict_keys t v) ks) then 1
+  else if negb (Bool.eqb (fst (cluster_flags_of_keys ks)) t' && Bool.eqb (snd (cluster_flags_of_keys ks)) v') then 2
+  else if negb (Bool.eqb t t' && Bool.eqb v v') then 3 else 0.
 Definition keyeqb (a b : vkey Z) : bool :=
   let '(a1, a2, a3, a4) := a in let '(b1, b2, b3, b4) := b in
   leqb Z.eqb a1 b1 && leqb Z.eqb a2 b2 && leqb Z.eqb a3 b3 && leqb Z.eqb a4 b4.
@@ -113,8 +120,9 @@ def codec_correspondence(ck, rng, V):
             back = [list(map(int, x)) for x in stars.flatlistindex2doublelist(flat, idx)]
         except ValueError:
             back = None
-        terms.append("(%s, %s, %s, %s)" % (nll(ll), nl(flat), nl(idx), onll(back)))
-        meta.append((mode, ll, back))
+        term = encode(V, "c13-unencodable-output", {"ll": ll, "flat": [str(x) for x in flat], "index": [str(x) for x in idx], "roundtrip": back},
+                      lambda: "(%s, %s, %s, %s)" % (nll(ll), nl(flat), nl(idx), onll(back)))
+        if term is not None: terms.append(term); meta.append((mode, ll, back))
         ck.case(key=("flat", ll), nontrivial=len(ll) > 0, kind="flat:" + mode, sample={"codec": "flat", "ll": ll, "roundtrip": back} if k < 1 else None)
     codes = run_nat_cases(ck, "flat", IMPORTS, "run_flat", terms)
     for (mode, ll, back), c in zip(meta, codes):
@@ -131,8 +139,8 @@ def codec_correspondence(ck, rng, V):
             back = [list(map(int, x)) for x in stars.flatlistindex2doublelist(flat, np.array(idx, dtype=int))]
         except ValueError:
             back = None
-        terms.append("(%s, %s, %s)" % (nl(flat), nl(idx), onll(back)))
-        meta.append((flat, idx, back))
+        term = encode(V, "c13-unencodable-output", {"flat": flat, "index": idx, "decoded": back}, lambda: "(%s, %s, %s)" % (nl(flat), nl(idx), onll(back)))
+        if term is not None: terms.append(term); meta.append((flat, idx, back))
         ck.case(key=("dec", flat, idx), nontrivial=n > 1, kind="decode:unsorted")
     codes = run_nat_cases(ck, "dec", IMPORTS, "run_dec", terms)
     for (flat, idx, back), c in zip(meta, codes):
@@ -151,8 +159,10 @@ def codec_correspondence(ck, rng, V):
                                           coq_list([zl(np.round(x * 8)) for x in dx]))
         except IndexError:
             arr, back = "None", []
-        terms.append("(%s, %s, %s)" % (coq_list([row(p) for p in l]), arr, coq_list([row(p) for p in back])))
-        meta.append([str(p) for p in l])
+        term = encode(V, "c13-unencodable-output", {"pslist": [str(p) for p in l], "back": [str(p) for p in back]},
+                      lambda: "(%s, %s, %s)" % (coq_list([row(p) for p in l]), arr, coq_list([row(p) for p in back])))
+        if term is None: continue
+        terms.append(term); meta.append([str(p) for p in l])
         ck.case(key=("ps", meta[-1]), nontrivial=n > 0, kind="pslist:%d" % min(n, 2))
     codes = run_nat_cases(ck, "ps", IMPORTS, "run_ps", terms)
     for m, c in zip(meta, codes):
@@ -175,8 +185,9 @@ def codec_correspondence(ck, rng, V):
         back = OnsagerCalc.arrays2vTKdict(*a)
         arr = "None" if a[0] is None else "(Some (%s, %s, %s))" % (coq_list([zl(np.round(r * 4)) for r in a[0]]), zl(np.round(a[1])),
                                                                    coq_list([coq_nat(s) for s in a[2]]))
-        terms.append("(%s, %s, %s)" % (dterm(d), arr, dterm(back)))
-        meta.append([np.hstack(key).tolist() for key in d])
+        term = encode(V, "c13-unencodable-output", {"keys": [np.hstack(key).tolist() for key in d]}, lambda: "(%s, %s, %s)" % (dterm(d), arr, dterm(back)))
+        if term is None: continue
+        terms.append(term); meta.append([np.hstack(key).tolist() for key in d])
         ck.case(key=("vtk", meta[-1]), nontrivial=n > 0, kind="vtkdict:%d" % n)
     codes = run_nat_cases(ck, "vtk", IMPORTS, "run_vtk", terms)
     for m, c in zip(meta, codes):
@@ -286,6 +297,13 @@ def calculators(ck, rng):
     names = ["square", "honeycomb", "sq2w", "tria", "rect-polar2d", "rect", "sc", "b2"] if ck.quick else \
             ["square", "honeycomb", "sq2w", "tria", "rect-polar2d", "rect", "oblique2d", "sc", "b2", "bcc", "fcc", "hcp", "tet", "polar", "diamond"]
     out = []
+    from onsager import crystal as _crystal
+    try:   # a non-primitive (centred) input cell: the constructor reduces it and rescales its threshold
+        cnp = _crystal.Crystal(np.diag([1., 1.25]), [[np.array([0., 0.]), np.array([.5, .5])]])
+        net = gen.percolating_network(cnp, 0, rng, maxshell=1)
+        if net is not None: out.append(("crect-nonprimitive", cnp, 0, net[1], net[2], 1))
+    except Exception:
+        pass
     for nm in names:
         crys, chem = gen.named(nm)
         net = gen.percolating_network(crys, chem, rng, maxshell=1)
@@ -338,7 +356,12 @@ def evaluator(ck, rng, V):
                     d.addhdf5(f.create_group("D"))
                     c = OnsagerCalc.VacancyMediated.loadhdf5(f["D"])
                 except Exception as e:
-                    V("addhdf5/loadhdf5 of a VacancyMediated calculator raises %r (%s)" % (e, stage), {**base, "stage": stage}, key="c13-vm-exception")
+                    if "np.float64" in str(e):
+                        V("loadhdf5 of a VacancyMediated calculator on a crystal with a reduced cell raises %r: its crystal_yaml cannot be parsed "
+                          "(float representer writes repr(np.float64) under numpy >= 2)" % (e,), {**base, "stage": stage, "threshold": repr(crys.threshold),
+                          "minimal_patch": "crystal.float_representer: return dumper.represent_float(float(data))"}, key="c13-yaml-numpy-float")
+                    else:
+                        V("addhdf5/loadhdf5 of a VacancyMediated calculator raises %r (%s)" % (e, stage), {**base, "stage": stage}, key="c13-vm-exception")
                     continue
                 out = []
                 not_restored.update(set(vars(d)) - set(vars(c)))
@@ -417,8 +440,10 @@ def evaluator(ck, rng, V):
                         g = f["D"][sn]; ss, sc = getattr(d, sn), getattr(c, sn)
                         for ll, inv, back in ((ss.stars, g["states_index"][()], sc.stars), (ss.jumpnetwork_index, g["jumplist_invmap"][()], sc.jumpnetwork_index)):
                             if len(inv) <= 60:
-                                inv_terms.append("(%s, %s, %s)" % (nll(ll), nl(inv), nll(back))); inv_meta.append((nm, N, sn))
-                    inv_terms.append("(%s, %s, %s)" % (nll(d.sitelist), nl(f["D"]["invmap"][()]), nll(c.sitelist))); inv_meta.append((nm, N, "sitelist"))
+                                term = encode(V, "c13-unencodable-output", {**base, "what": sn}, lambda: "(%s, %s, %s)" % (nll(ll), nl(inv), nll(back)))
+                                if term is not None: inv_terms.append(term); inv_meta.append((nm, N, sn))
+                    term = encode(V, "c13-unencodable-output", {**base, "what": "sitelist"}, lambda: "(%s, %s, %s)" % (nll(d.sitelist), nl(f["D"]["invmap"][()]), nll(c.sitelist)))
+                    if term is not None: inv_terms.append(term); inv_meta.append((nm, N, "sitelist"))
             finally:
                 f.close()
         # ---- stand-alone GF calculator, star sets, vector star sets
@@ -462,7 +487,7 @@ def evaluator(ck, rng, V):
                 if not (o == o2 and type(o) is type(o2)):
                     V("YAML round trip of a %s is not equal" % type(o).__name__, {**base, "object": str(o)}, key="c13-yaml-" + type(o).__name__)
         except Exception as e:
-            V("YAML round trip raises %r" % (e,), base, key="c13-yaml-exception")
+            V("YAML round trip raises %r" % (e,), {**base, "threshold": repr(crys.threshold)}, key="c13-yaml-numpy-float" if "np.float64" in str(e) else "c13-yaml-exception")
     ck.extra["max_result_difference"] = maxdiff
     ck.extra["attributes_not_restored"] = sorted(not_restored)
     ck.extra["skipped"] = skipped
@@ -503,6 +528,129 @@ def evaluator(ck, rng, V):
                 f.close()
 
 
+def bool_kwargs(fn):
+    """names of the keyword arguments of a constructor whose default is a bool: every combination is enumerated"""
+    import inspect
+    return [n for n, p in inspect.signature(fn).parameters.items() if isinstance(p.default, bool)]
+
+
+def yaml_corpus(ck, rng, V):
+    """YAML round trips of the value types over EVERY combination of constructor flags / alternative constructors, plus the
+    clusters the library's own generators produce (incl. transition-state clusters of vacancy cluster expansions)"""
+    import yaml, itertools
+    from onsager import cluster, crystal, crystalStars as stars
+    def rt(o): return yaml.load(yaml.dump(o), Loader=yaml.Loader)
+    terms, meta = [], []
+
+    def check_cluster(cl, origin):
+        try:
+            c2 = rt(cl)
+        except Exception as e:
+            V("YAML round trip of a Cluster raises %r" % (e,), {"origin": origin, "cluster": str(cl)}, key="c13-yaml-exception"); return
+        t, v = bool(cl.__transition__), bool(cl.__vacancy__)
+        ok = (type(c2) is type(cl) and c2 == cl and cl == c2 and hash(c2) == hash(cl) and bool(c2.__transition__) == t and bool(c2.__vacancy__) == v
+              and c2.Norder == cl.Norder and len(c2.sites) == len(cl.sites))
+        ck.case(key=("yaml-cluster", origin, str(cl)), nontrivial=True, kind="yaml:Cluster[%s%s]" % ("T" if t else "-", "V" if v else "-"))
+        if not ok:
+            V("YAML round trip of a Cluster (transition=%s, vacancy=%s; %s) is not equal: reloaded flags transition=%s vacancy=%s"
+              % (t, v, origin, getattr(c2, "__transition__", None), getattr(c2, "__vacancy__", None)),
+              {"origin": origin, "cluster": str(cl), "flags": {"transition": t, "vacancy": v}, "yaml": yaml.dump(cl)[:600], "reloaded": str(c2)},
+              key="c13-yaml-Cluster")
+        code = {"clustersitelist": 0, "transition": 1, "vacancy": 2}
+        ks = [code.get(k, 9) for k in cl._asdict().keys()]
+        terms.append("(%s, %s, %s, %s, %s)" % (coq_bool(t), coq_bool(v), nl(ks), coq_bool(bool(getattr(c2, "__transition__", False))),
+                                              coq_bool(bool(getattr(c2, "__vacancy__", False)))))
+        meta.append((origin, str(cl)))
+
+    flags = bool_kwargs(cluster.Cluster.__init__)
+    ck.extra["cluster_constructor_flags_enumerated"] = flags
+    for nm in (["square", "fcc", "b2"] if ck.quick else ["square", "honeycomb", "fcc", "b2", "hcp", "rect-polar2d"]):
+        crys, chem = gen.named(nm)
+        dim = crys.dim
+        def rs():
+            c = rng.randrange(crys.Nchem)
+            return cluster.ClusterSite(ci=(c, rng.randrange(len(crys.basis[c]))), R=np.array([rng.randint(-1, 2) for _ in range(dim)], dtype=int))
+        # ---- Cluster: all combinations of the boolean constructor keywords, 2-4 distinct sites
+        for combo in itertools.product([False, True], repeat=len(flags)):
+            for rep in range(2):
+                sites = []
+                while len(sites) < rng.randint(2, 4):
+                    x = rs()
+                    if all(not (x == y) for y in sites): sites.append(x)
+                check_cluster(cluster.Cluster(sites, **dict(zip(flags, combo))), "%s Cluster(%s)" % (nm, ", ".join("%s=%s" % kv for kv in zip(flags, combo))))
+        # ---- clusters produced by the library's own generators
+        try:
+            cut = gen.shells(crys, chem)[0] + 1e-4
+            clexp = cluster.makeclusters(crys, cut, 3)
+            jn = crys.jumpnetwork(chem, cut)
+            vac = cluster.makeVacancyClusters(crys, chem, clexp)
+            fams = {"makeclusters": clexp, "makeTSclusters": cluster.makeTSclusters(crys, chem, jn, clexp), "makeVacancyClusters": vac,
+                    "makeTSclusters(makeVacancyClusters)": cluster.makeTSclusters(crys, chem, jn, vac)}
+            for fam, sets in fams.items():
+                members = [cl for st in sets for cl in st]
+                for cl in (members if len(members) <= 12 else rng.sample(members, 12)):
+                    check_cluster(cl, "%s %s" % (nm, fam))
+            ck.extra.setdefault("library_cluster_families", {})[nm] = {k: sum(len(x) for x in v2) for k, v2 in fams.items()}
+        except Exception as e:
+            ck.extra.setdefault("skipped", {}).setdefault("cluster-generators-failed", []).append("%s: %r" % (nm, e))
+        # ---- ClusterSite, PairState (every alternative constructor), GroupOp (every derived form)
+        objs = [rs(), -rs(), rs() + np.ones(dim, dtype=int)]
+        basis = crys.basis[chem]
+        jn1 = crys.jumpnetwork(chem, gen.shells(crys, chem)[0] + 1e-4)
+        (i, j), dx = jn1[0][0]
+        ps = stars.PairState.fromcrys(crys, chem, (i, j), dx)
+        objs += [stars.PairState.zero(0, dim), stars.PairState.zero(-1, dim), ps, stars.PairState.fromcrys_latt(crys, chem, (i, j), ps.R), -ps, ps - ps]
+        G = list(crys.G)
+        g, h = rng.choice(G), rng.choice(G)
+        objs += [g, g.incell(), g.inhalf(), g.inv(), g * h, g + np.ones(dim, dtype=int), g - np.ones(dim, dtype=int), ps.g(crys, chem, g), objs[0].g(crys, g)]
+        for o in objs:
+            try:
+                o2 = rt(o)
+                good = type(o2) is type(o) and o2 == o and o == o2 and hash(o2) == hash(o)
+                if isinstance(o, stars.PairState): good = good and np.array_equal(o.dx, o2.dx)
+            except Exception as e:
+                good, o2 = False, repr(e)
+            ck.case(key=("yaml-obj", nm, str(o)[:80]), nontrivial=True, kind="yaml:" + type(o).__name__)
+            if not good: V("YAML round trip of a %s is not equal" % type(o).__name__, {"crystal": nm, "object": str(o), "reloaded": str(o2)}, key="c13-yaml-" + type(o).__name__)
+    # ---- Crystal: every combination of its boolean constructor keywords x spins x chemistry x threshold
+    cflags = bool_kwargs(crystal.Crystal.__init__)
+    ck.extra["crystal_constructor_flags_enumerated"] = cflags
+    cells = [(np.diag([1., 1.25]), [[np.array([0., 0.]), np.array([.5, .5])]]),
+             (np.diag([1., 1., 1.3]), [[np.array([0., 0., 0.])], [np.array([.5, .5, .5]), np.array([.5, .5, .1])]])]
+    nfail = 0
+    for latt, basis in cells:
+        nat = [len(b) for b in basis]
+        spin_opts = [None, [[(-1) ** k for k in range(n)] for n in nat], [[np.eye(len(latt))[k % len(latt)] for k in range(n)] for n in nat]]
+        chem_opts = [None, ["El%d" % k for k in range(len(basis))]]
+        for combo in itertools.product([False, True], repeat=len(cflags)):
+            for spins, chemn, thr in itertools.product(spin_opts, chem_opts, [1e-8, 1e-6]):
+                kw = dict(zip(cflags, combo)); kw.update(spins=spins, chemistry=chemn, threshold=thr)
+                try:
+                    c0 = crystal.Crystal(latt, basis, **kw)
+                except Exception:
+                    nfail += 1; continue          # construction itself is C18/C19's subject
+                try:
+                    c1 = rt(c0)
+                    bad = deep_diff([c0.basis, list(c0.chemistry), c0.N, c0.dim, c0.atomindices, c0.Wyckoff, c0.threshold, c0.spins],
+                                    [c1.basis, list(c1.chemistry), c1.N, c1.dim, c1.atomindices, c1.Wyckoff, c1.threshold, c1.spins])
+                    if not np.allclose(c0.lattice, c1.lattice, rtol=1e-14, atol=0) or c1.G != c0.G: bad.append("lattice/G")
+                except Exception as e:
+                    bad = [repr(e)]
+                ck.case(key=("yaml-crystal", len(latt), str(kw)), nontrivial=True, kind="yaml:Crystal")
+                if bad and "np.float64" in str(bad):
+                    V("a Crystal whose constructor reduced the cell (threshold becomes a numpy scalar) cannot be reloaded from its YAML dump: %s; "
+                      "the float representer writes repr(np.float64) = 'np.float64(2e-08)' under numpy >= 2" % bad[0],
+                      {"lattice": latt.tolist(), "basis": [[u.tolist() for u in b] for b in basis], "kwargs": str(kw), "threshold": repr(c0.threshold),
+                       "minimal_patch": "crystal.float_representer: return dumper.represent_float(float(data))"}, key="c13-yaml-numpy-float")
+                elif bad: V("YAML round trip of a Crystal(%s) is not equal: %s" % (", ".join("%s=%s" % (k, type(v2).__name__ if v2 is not None and not isinstance(v2, (bool, float)) else v2) for k, v2 in kw.items()), bad[:4]),
+                          {"lattice": latt.tolist(), "basis": [[u.tolist() for u in b] for b in basis], "kwargs": str(kw), "diff": bad}, key="c13-yaml-crystal")
+    ck.extra.setdefault("skipped", {})["crystal-kwargs-construct-failed"] = nfail
+    codes = run_nat_cases(ck, "clflags", IMPORTS, "run_clflags", terms, chunk=200)
+    for (origin, cl), c in zip(meta, codes):
+        if c: V("Cluster._asdict / reloaded flags differ from the model (%s)" % {1: "dictionary keys", 2: "reloaded flags vs dictionary", 3: "reloaded flags vs original"}[c],
+                {"origin": origin, "cluster": cl}, key="c13-corr-clusterflags-%d" % c)
+
+
 def run(ck):
     V = Once(ck)
     ck.rule = ("codecs: random nested lists (well-formed / trailing empty / middle empty / all empty / empty), arbitrary index arrays, "
@@ -522,3 +670,7 @@ def run(ck):
         evaluator(ck, rng, V)
     except CoqFailure as e:
         ck.broken_proof = "correspondence index arrays: %s" % e
+    try:
+        yaml_corpus(ck, rng, V)
+    except CoqFailure as e:
+        ck.broken_proof = "correspondence cluster flags: %s" % e
